@@ -30,6 +30,7 @@ on the values that can reach it from the selected functions):
 * reads of the world outside the translated functions (`sys.version_info`, `platform_tags()`, …) come from an
   explicit environment table `Env`; a key that is not in the table is `PyRtEnvMissing`.
 * an exception is the *name of its class*; `except C` catches the classes listed under `C` in `bases`.
+* compiled regular expressions resolved to regenerated data, full `str.lower`, sets: `PkgModel/PyRx.lean`.
 -/
 namespace PyRt
 open Py
@@ -754,5 +755,13 @@ def ofOptStr : Option Str → PyVal
 def ofOptNat : Option Nat → PyVal
   | Option.none => .none
   | some n => .int n
+
+/-! ## x2: additions of the second round (more primitives live in `PkgModel/PyRx.lean`) -/
+
+/-- unary minus on ints / bools -/
+def neg (a : PyVal) : M PyVal :=
+  match asInt a with
+  | some i => pure (.int (-i))
+  | Option.none => throw typeError
 
 end PyRt
